@@ -23,24 +23,25 @@ from harness.translate import c08_tables
 
 ID = "C08"
 LEVEL_TEXT = ("Theorems over all trees (modules, classes, functions, attributes, aliases, decorators, docstrings, parameters, expression dataclasses "
-              "of the regenerated table at any depth), minimal mode: a tree outside three decidable decoding gaps decodes to exactly `reload t`, an "
-              "explicit function (C08_decode_enc_min); the gaps are exact - any tree with one of them fails to decode, so for trees the agents can "
-              "build `decodable` <=> the document decodes (C08_gap_decode_fails, C08_decodable_iff); `reload t` re-encodes to the identical JSON unless a "
-              "docstring is not a fixpoint of cleandoc (C08_reencode_identical, C08_roundtrip_min), agrees with t on every serialised field up to "
-              "parent links and enum typing (C08_equiv_fields), and is t itself when no expression gap is present (C08_names_resolve_modulo_known). "
-              "Full mode: every tree with a docstring fails to decode whatever the derived values (C08_full_docstring_not_decodable). Eleven computed "
-              "`_refuted` witnesses, one per finding, each replayed on the implementation; an Example tree with every node kind satisfies all hypotheses. "
-              "The expression class table, enum values and constructor signatures are regenerated from the sources on every run; the model is tied to "
-              "the code by differential runs on generated packages (visit with/without resolved aliases, forced inspection), namespace and builtin "
-              "modules, hand-built trees, 1500+ expressions, damaged documents, and `griffe dump` invocations.")
+              "of the regenerated table at any depth), minimal mode: every tree satisfying the representation invariant `rep` - with or without "
+              "line numbers, regular / namespace / builtin file paths, any member names - decodes to exactly `reload t`, an explicit function "
+              "(C08_decode_enc_min); `reload t` re-encodes to the identical JSON unless a docstring is not a fixpoint of cleandoc "
+              "(C08_reencode_identical, C08_roundtrip_min), agrees with t on every serialised field up to parent links (C08_equiv_fields), and is t "
+              "itself when no expression gap is present (C08_names_resolve_modulo_known). Computed `_refuted` witnesses for the remaining findings "
+              "(F4, F6, F8-F11), each replayed on the implementation; C08_fixed_witnesses: the witnesses of the repaired defects round-trip to "
+              "themselves; an Example tree with every node kind satisfies all hypotheses. The expression class table, enum values, constructor "
+              "signatures and the shape of json_decoder's two tests are regenerated from the sources on every run; the model is tied to the code by "
+              "differential runs on generated packages (visit with/without resolved aliases, forced inspection), namespace and builtin modules, "
+              "hand-built trees, 1500+ expressions, damaged documents, and `griffe dump` invocations, in both modes.")
 LEVEL_NOTE = ("Trusted: Coq kernel, extraction, translator harness/translate/c08_tables.py, the abstraction live object -> model tree in this module, "
               "json.dumps/json.loads themselves (the model starts at the dict level; first binding wins in the model, documents never repeat a key). "
-              "Partial: full mode is modelled for encoding and for the decoding failure only; that a docstring-free full document re-encodes "
-              "identically is checked on the implementation, not proved (the derived values - paths relative to cwd/package, parsed sections - are "
-              "parameters of the model read from the live objects). Name *resolution* is C04's subject: the theorems carry every name's parent link, "
-              "equality of canonical paths before/after is checked on the implementation per name occurrence. Fields that are never serialised "
-              "(imports, exports, runtime, public, deprecated, extra, overloads, property setters/deleters) are outside the statement. Documents whose "
-              "root is not a module, non-ASCII strings, set_member name clashes and ill-typed expression fields are outside the model (EUnmodelled).")
+              "Partial: full mode is modelled (encoding with the derived values - paths relative to cwd/package, parsed sections - as parameters read "
+              "from the live objects; decoding through the same `decode`) and compared with the implementation on every tree, but the full-mode round "
+              "trip is not a theorem; docstring parser and options are not serialised, so a full dump made with a parser re-derives text sections. "
+              "Name *resolution* is C04's subject: the theorems carry every name's parent link, equality of canonical paths before/after is checked "
+              "on the implementation per name occurrence. Fields that are never serialised (imports, exports, runtime, public, deprecated, extra, "
+              "overloads, property setters/deleters) are outside the statement. Documents whose root is not a module, non-ASCII strings, set_member "
+              "name clashes and ill-typed expression fields are outside the model (EUnmodelled).")
 MODEL = ("Model.C08_run", "run_C08")
 MODEL_TARGETS = ["Model/C08_run.vo"]
 COQ_TARGETS = ["Proofs/C08_json.vo"]
@@ -383,7 +384,7 @@ def compare_objects(ctx, case, a, b, ta, tb, tm, path, mode_note):
                 continue
             ctx.count("expression_slots_compared")
             if str(ea) != str(eb):
-                fail("expression text " + slot, {"old": str(ea), "new": str(eb)}, finding="C08-F7" if has_nonpk_lambda(ea) else None)
+                fail("expression text " + slot, {"old": str(ea), "new": str(eb)})
             elif type(ea) is not type(eb):
                 fail("expression class " + slot, {"old": type(ea).__name__, "new": type(eb).__name__})
             na, nb = names_of(ea, []), names_of(eb, [])
@@ -459,8 +460,8 @@ def has_builtin_module(t) -> bool:
 
 
 def py_gaps(t) -> dict:
-    """python mirror of gap_lineno / gap_filepath / gap_memberkey / has_docstring over an abstracted tree
-    (used to cross-check the model's verdicts, and to classify when the model cannot be consulted)."""
+    """features of an abstracted tree that used to make decoding fail (fixed findings F1, F2, F3, F5): recorded in the
+    input distribution so that one sees they are generated."""
     g = {"lineno": False, "filepath": False, "memberkey": False, "has_doc": False}
 
     def walk(t):
@@ -541,20 +542,15 @@ def check_tree(ctx, obj, case, modes=(False, True), stream="?"):
     flags = None
     if mres is not None:
         m_json, m_dec, flags, m_reload = norm_model(mres[0]), mres[1], mres[2], mres[3]
-        rep, g_line, g_fp, g_key, g_doc, g_expr, has_doc = flags
-        ctx.observe("model_flags", f"rep={rep} lineno={g_line} filepath={g_fp} memberkey={g_key} doc={g_doc} expr={g_expr}")
+        rep, g_doc, g_expr, has_doc = flags
+        pg = py_gaps(ta)
+        ctx.observe("model_flags", f"rep={rep} doc={g_doc} expr={g_expr}")
+        ctx.observe("tree_features", f"no-lineno={int(pg['lineno'])} filepath-not-str={int(pg['filepath'])} member-kind/cls={int(pg['memberkey'])} docstring={int(pg['has_doc'])}")
         if not rep:
             ctx.tie_failure("correspondence", "a live tree violates the model's representation invariant `rep`", {"flags": flags}, case)
-        pg = py_gaps(ta)
-        if [int(pg["lineno"]), int(pg["filepath"]), int(pg["memberkey"]), int(pg["has_doc"])] != [g_line, g_fp, g_key, has_doc]:
-            ctx.tie_failure("correspondence", "gap predicates: python mirror vs model", {"python": pg, "model": flags}, case)
-        # the gap predicates are exact for the model's own decoder: a gap <=> decode(enc_min t) fails
-        if rep and (m_dec[0] == "err") != bool(g_line or g_fp or g_key):
-            ctx.tie_failure("correspondence", "model: decoding gap flags vs decode(enc_min t)", {"flags": flags, "decode": m_dec[:2]}, case)
-    elif ta is not None:
-        pg = py_gaps(ta)
-        g_line, g_fp, g_key, has_doc = pg["lineno"], pg["filepath"], pg["memberkey"], pg["has_doc"]
-        flags = [1, g_line, g_fp, g_key, 0, 0, has_doc]
+        # C08_decode_enc_min: every rep tree decodes, in the model
+        if rep and m_dec[0] == "err":
+            ctx.tie_failure("correspondence", "model: a rep tree does not decode", {"flags": flags, "decode": m_dec[:2]}, case)
     for full in modes:
         mode = "full" if full else "min"
         # (a) serialisation succeeds and is JSON
@@ -589,18 +585,7 @@ def check_tree(ctx, obj, case, modes=(False, True), stream="?"):
         except Exception as e:  # noqa: BLE001
             tag = exc_tag(e)
             ctx.observe("outcome", f"{mode}:decode-raises:{tag}")
-            fid = None
-            if (m_decoded is None or (m_decoded[0] == "err" and m_decoded[1] == tag)) and flags is not None:
-                if full and has_doc and tag in ("KeyError:name", "TypeError"):
-                    fid = "C08-F1"
-                elif tag == "KeyError:lineno" and g_line:
-                    fid = "C08-F2"
-                elif tag == "TypeError" and g_fp and not g_key:
-                    fid = "C08-F3"
-                elif tag in ("KeyError:name", "TypeError", "ValueError", "KeyError:annotation", "KeyError:default") and g_key:
-                    fid = "C08-F5"
-                elif tag == "TypeError" and g_fp:
-                    fid = "C08-F3"
+            fid = None        # no known finding makes decoding fail any more
             if m_decoded is not None and (m_decoded[0] != "err" or m_decoded[1] != tag):
                 ctx.tie_failure("correspondence", f"decode(model) vs Module.from_json ({mode})", {"model": m_decoded[:2], "impl": tag}, case)
             ctx.property_failure(dict(case, mode=mode, step="from_json"), {"exception": tag, "message": str(e)[:200]}, finding=fid)
@@ -638,7 +623,7 @@ def check_tree(ctx, obj, case, modes=(False, True), stream="?"):
         tm = None
         if mres is not None and m_reload is not None:
             tm = m_reload
-            if m_decoded is not None and m_decoded[1] != m_reload and not (g_line or g_fp or g_key):
+            if not full and m_decoded is not None and m_decoded[1] != m_reload:
                 ctx.tie_failure("correspondence", "reload(model) differs from decode(enc_min) (model)", {}, case)
         compare_objects(ctx, dict(case, mode=mode), obj, obj2, ta, tb, tm, [obj.name], mode)
     return ta, flags
@@ -1457,23 +1442,44 @@ def _rt(obj, full=False):
     return ("same", o2) if o2.as_json(full=full) == j else ("diff", o2)
 
 
+def fixed_cases(ctx):
+    """Witnesses of repaired defects (F1, F2, F3, F5, F7): corpus cases that must now pass."""
+    import griffe
+    V = lambda code: griffe.visit("w", filepath=Path("/x/w.py"), code=code)
+    m = griffe.Module("w", filepath=Path("/x/w.py"))
+    m.set_member("a", griffe.Attribute("a"))
+    m.set_member("al", griffe.Alias("al", "os.al"))
+    cases = [("F1 full-mode document with a docstring", V('"""Doc."""\ndef f(a):\n    """F.\n\n    More."""\n'), True),
+             ("F1 full-mode document without docstring", V("x = 1\n"), True),
+             ("F2 attribute and alias without line number", m, False),
+             ("F3 namespace package", griffe.Module("w", filepath=[Path("/x/w"), Path("/y/w")]), False),
+             ("F3 builtin module", griffe.Module("w", filepath=None), False),
+             ("F5 module member named kind", V("kind = 1\n"), False),
+             ("F5 module member named cls", V("cls = 1\nname = 2\n"), False),
+             ("F5 class member named kind, full mode", V("class C:\n    kind: int = 0\n    cls = 1\n"), True),
+             ("F7 lambda parameter kinds", V("f = lambda p, /, q=1, *a, k, **kw: 0\n"), False)]
+    for what, mod, full in cases:
+        ctx.case({"fixed_case": what}, True)
+        ctx.observe("stream", "fixed-cases")
+        r = _rt(mod, full=full)
+        if r[0] != "same":
+            ctx.property_failure({"fixed_case": what, "mode": "full" if full else "min"}, {"outcome": r[0], "detail": r[1] if isinstance(r[1], str) else None})
+            continue
+        before = len(ctx.prop_failures)
+        if what.startswith("F7") and str(r[1].members["f"].value) != str(mod.members["f"].value):
+            ctx.property_failure({"fixed_case": what}, {"old": str(mod.members["f"].value), "new": str(r[1].members["f"].value)})
+        if what.startswith("F3") and r[1]._filepath != mod._filepath:
+            ctx.property_failure({"fixed_case": what}, {"old": str(mod._filepath), "new": str(r[1]._filepath)})
+
+
 def witnesses(ctx):
     import griffe
     V = lambda code: griffe.visit("w", filepath=Path("/x/w.py"), code=code)
-    ctx.witness("C08-F1", _rt(V('"""Doc."""\n'), full=True) == ("dec", "KeyError:name") and _rt(V("x = 1\n"), full=True)[0] == "same")
-    m = griffe.Module("w", filepath=Path("/x/w.py"))
-    m.set_member("a", griffe.Attribute("a"))
-    ctx.witness("C08-F2", _rt(m) == ("dec", "KeyError:lineno"))
-    ctx.witness("C08-F3", _rt(griffe.Module("w", filepath=[Path("/x/w")])) == ("dec", "TypeError") and _rt(griffe.Module("w", filepath=None)) == ("dec", "TypeError"))
     ctx.witness("C08-F4", _rt(griffe.Module("w", filepath=None), full=True) == ("enc", "BuiltinModuleError"))
-    ctx.witness("C08-F5", _rt(V("kind = 1\n")) == ("dec", "KeyError:name") and _rt(V("cls = 1\n")) == ("dec", "TypeError")
-                and _rt(V("class C:\n    kind: int = 0\n")) == ("dec", "KeyError:name"))
     r = _rt(V('"""\n    Deep first line.\nRest.\n"""\n'))
     r2 = _rt(V('"""\nFirst line.\n    Rest, deeper.\n  Tail.\n"""\n'))
     ctx.witness("C08-F6", r[0] == "diff" and r[1].docstring.value == "Deep first line.\nRest."
                 and r2[0] == "diff" and r2[1].docstring.value == "First line.\n  Rest, deeper.\nTail.")
-    r = _rt(V("f = lambda *a, k, **kw: 0\n"))
-    ctx.witness("C08-F7", r[0] == "same" and str(r[1].members["f"].value) == "lambda a, k, kw: 0")
 
     def cps(code, get):
         mod = V("import typing\nfrom typing import List, Optional\nimport os.path as osp\nclass Foo: ...\n" + code)
@@ -1494,6 +1500,7 @@ def witnesses(ctx):
 def explore(ctx):
     os.makedirs(ctx.scratch, exist_ok=True)
     witnesses(ctx)
+    fixed_cases(ctx)
     stream_clean(ctx, ctx.budget(400, 4000))
     stream_expressions(ctx, ctx.budget(1500, 12000))
     stream_hand(ctx, ctx.budget(40, 300))
